@@ -41,6 +41,9 @@ RULE = (
     "bit-identical to the model.fit / model.personalize reference. "
     "n_jobs engine: seeded scipy_minimize with n_jobs in {2,3} (joblib workers), twice in a row after prior activity, bit-identical to the "
     "same seeded call with n_jobs=1 (non-trivial when both repetitions completed and agree). "
+    "settings-route variant (fit, personalize; Hypothesis cases + grid rows kind x route x seed in {0,1,2**31-1}): AlgorithmSettings.save(path) then "
+    "AlgorithmSettings.load(path) or algorithm_settings_path=path, run twice after prior activity: loaded seed == saved seed, both runs bit-identical to "
+    "the in-memory reference with the same seed (non-trivial when both completed and agree). "
     "Non-trivial = (re-use variant: both runs completed and identical) OR prior activity non-empty AND (fit: the logging variant really printed statistics or wrote a CSV/PDF, checked "
     "in captured stdout / on disk; personalize, simulate: always, they have no output manager); distinct by (call, variant)."
 )
@@ -73,6 +76,7 @@ REQUIRED_CLASSES = {
     "prior:consume": 30, "prior:fit": 10, "prior:personalize": 5, "prior:same": 10, "prior:unseeded": 8,
     "refused-invalid": 40, "fresh-process-reference": 4, "nontrivial": 60,
     "reused-algorithm-object": 30, "reused-algorithm-object:annealing": 10, "perso:n_jobs>1": 3,
+    "route:file": 30, "route:file:seed=0": 8,
 }
 
 LOG_KEYS = ("print_periodicity", "save_periodicity", "plot_periodicity", "plot_patient_periodicity", "plot_sourcewise",
@@ -562,6 +566,81 @@ def judge_reused(col, sub_check, case, variant, ref, outs, classes):
     return ok and len(outs) >= 2
 
 
+def call_route(ctx: Ctx, route, n_runs=2):
+    """Settings travel through a JSON file: AlgorithmSettings(...).save(path), then either `AlgorithmSettings.load(path)` passed as
+    `algorithm_settings=` (route 'file-load') or `algorithm_settings_path=path` (route 'file-path'). Returns (outs, loaded seed or '<n/a>')."""
+    from leaspy.algo import AlgorithmSettings
+
+    case = ctx.case
+    target = case["target"]
+    akw = dict(case.get("algo_kw") or {})
+    _COUNTER[0] += 1
+    path = os.path.join(os.getcwd(), f"c11_settings_{os.getpid()}_{_COUNTER[0]}.json")
+    outs = []
+    loaded_seed = "<n/a>"
+    try:
+        for _ in range(n_runs):
+            buf = io.StringIO()
+            res = exc = None
+            try:
+                with contextlib.redirect_stdout(buf):
+                    AlgorithmSettings("mcmc_saem" if target == "fit" else target, seed=case["seed"], progress_bar=False, **akw).save(path)
+                    if route == "file-load":
+                        loaded = AlgorithmSettings.load(path)
+                        loaded_seed = loaded.seed
+                        kw = dict(algorithm_settings=loaded)
+                    else:
+                        kw = dict(algorithm_settings_path=path)
+                    if target == "fit":
+                        m = gen.build_model(ctx.cfg)
+                        m.fit(ctx.data(), **kw)
+                        res = canon_fit(m)
+                    else:
+                        res = canon_ip(ctx.base.personalize(ctx.data(), **kw))
+            except Exception as e:  # judged by the caller
+                exc = e
+            outs.append(dict(result=res, exc=exc, stdout=buf.getvalue(), disk={}, default_path=False))
+    finally:
+        if os.path.exists(path):
+            os.remove(path)
+    return outs, loaded_seed
+
+
+def judge_route(col, sub_check, case, variant, ref, outs, loaded_seed, classes):
+    inp = dict(case, variants=[variant])
+    route = variant["route"]
+    classes.update({"route:file", "route:" + route})
+    sd = case["seed"]
+    if sd == 0:
+        classes.add("route:file:seed=0")
+    elif sd == 2**31 - 1:
+        classes.add("route:file:seed=2**31-1")
+    sclass = "seed=0" if sd == 0 else "seed!=0"
+    ok = True
+    if route == "file-load" and loaded_seed != "<n/a>" and loaded_seed != sd:
+        ok = False
+        col.fail(sub_check, f"settings-file:loaded-seed-differs:{sclass}", inp, observed=f"loaded seed {loaded_seed!r}", expected=f"saved seed {sd!r}")
+    for i, out in enumerate(outs):
+        if ref["exc"] is not None:
+            classes.add("ref-raised")
+            ok = False
+            if out["exc"] is None or type(out["exc"]) is not type(ref["exc"]):
+                col.fail(sub_check, f"settings-file:outcome-differs:{route}:" + ("completed" if out["exc"] is None else exc_bucket(out["exc"])), inp,
+                         observed=repr(out["exc"])[:400], expected=f"same outcome as the in-memory reference: {type(ref['exc']).__name__}")
+            continue
+        if out["exc"] is not None:
+            ok = False
+            col.fail(sub_check, f"settings-file:{route}:unexpected-exception:" + exc_bucket(out["exc"]), inp, observed=repr(out["exc"])[:600],
+                     expected="the run configured through a settings file completes like the in-memory one")
+            continue
+        d = first_diff(ref["result"], out["result"])
+        if d is not None:
+            ok = False
+            col.fail(sub_check, f"settings-file:result-differs:{case['target']}:{sclass}", inp, observed=f"run {i + 1} via {route}: {d}",
+                     expected="bit-identical to the run configured in memory with the same seed (and to its own repetition)")
+    return ok and len(outs) >= 2
+
+
 def body(col: Collector, case, sub_check=None):
     sub_check = sub_check or ("fit" if case["target"] == "fit" else ("simulate" if case["target"] == "simulate" else "perso"))
     for e in case.get("excluded", []):
@@ -592,6 +671,10 @@ def body(col: Collector, case, sub_check=None):
             if variant.get("reuse"):
                 outs = call_reused(ctx)
                 nt = judge_reused(col, sub_check, case, variant, ref, outs, classes)
+                out = outs[-1]
+            elif variant.get("route"):
+                outs, loaded_seed = call_route(ctx, variant["route"])
+                nt = judge_route(col, sub_check, case, variant, ref, outs, loaded_seed, classes)
                 out = outs[-1]
             else:
                 out = call_target(ctx, variant.get("logging"), tag="var")
@@ -699,7 +782,7 @@ def apply_known_exclusions(lg, cfg, excluded):
 
 
 def seeds():
-    return st.one_of(st.sampled_from([0, 0, 1]), st.integers(0, 2**31 - 1), st.integers(0, 50))
+    return st.one_of(st.sampled_from([0, 0, 1, 2**31 - 1]), st.integers(0, 2**31 - 1), st.integers(0, 50))
 
 
 @st.composite
@@ -729,6 +812,8 @@ def fit_case(draw, kinds, tier="quick", n_variants=2):
         prior = draw(prior_ops(min_size=0 if (with_log and draw(st.integers(0, 3)) == 0) else 1, max_size=3))
         lg = draw(logging_cfg(n_iter, cfg, heavy=(i == 0 or tier != "quick"), excluded=excluded)) if with_log else None
         variants.append(dict(prior=prior, logging=lg))
+    if draw(st.booleans()):  # settings travel through a JSON file
+        variants.append(dict(prior=draw(prior_ops(min_size=1, max_size=2, allow_same=False)), logging=None, route=draw(st.sampled_from(["file-load", "file-path"]))))
     if draw(st.booleans()):  # the same algorithm object run twice (prior activity optional)
         variants.append(dict(prior=draw(prior_ops(min_size=0, max_size=1, allow_same=False)), logging=None, reuse=True))
     return dict(target="fit", cfg=cfg, cohort=cohort, seed=draw(seeds()), pre_seed=draw(st.integers(0, 2**31 - 1)), algo_kw=akw,
@@ -758,6 +843,8 @@ def perso_case(draw, algos, kinds, tier="quick", n_variants=2):
         prior = draw(prior_ops(min_size=1, max_size=3))
         lg = dict(progress_bar=True) if draw(st.integers(0, 3)) == 0 else None
         variants.append(dict(prior=prior, logging=lg))
+    if draw(st.booleans()):  # settings travel through a JSON file
+        variants.append(dict(prior=draw(prior_ops(min_size=1, max_size=2, allow_same=False)), logging=None, route=draw(st.sampled_from(["file-load", "file-path"]))))
     if draw(st.booleans()):  # the same algorithm object run twice on the same fitted model and data
         variants.append(dict(prior=draw(prior_ops(min_size=0, max_size=1, allow_same=False)), logging=None, reuse=True))
     return dict(target=algo, cfg=cfg, cohort=cohort, seed=draw(seeds()), pre_seed=draw(st.integers(0, 2**31 - 1)), algo_kw=akw,
@@ -1227,6 +1314,39 @@ def reuse_cases():
     return out
 
 
+def route_cases():
+    """grid rows of the settings-route dimension: kind x route x seed in {0, 1, 2**31-1} for fit, and two personalize algorithms"""
+    out = []
+    i = 0
+    for kk in ("logistic", "linear", "joint"):
+        cfg = GRID_CFG[kk]
+        cohort = fixed_cohort("linear" if cfg["kind"] == "linear" else "logistic", cfg["kwargs"]["dimension"], event=cfg["kind"] == "joint")
+        for route in ("file-load", "file-path"):
+            for sd in (0, 1, 2**31 - 1):
+                akw = dict(n_iter=6, sampler_pop=SAMPLERS[i % 3])
+                if i % 4 == 1:
+                    akw["annealing"] = dict(do_annealing=True, n_plateau=2, initial_temperature=4.0)
+                out.append(dict(target="fit", cfg=cfg, cohort=cohort, seed=sd, pre_seed=3000 + i, algo_kw=akw,
+                                variants=[dict(prior=GRID_PRIORS[i % 3], logging=None, route=route)]))
+                i += 1
+            for algo, sd in (("mean_posterior", 0), ("mode_posterior", 2**31 - 1)):
+                out.append(dict(target=algo, cfg=cfg, cohort=cohort, seed=sd, pre_seed=3000 + i, algo_kw=dict(n_iter=10), base_seed=3, base_n_iter=6,
+                                variants=[dict(prior=GRID_PRIORS[(i + 1) % 3], logging=None, route=route)]))
+                i += 1
+    return out
+
+
+def shard_route(shard: str = ""):
+    env.import_leaspy()
+    col = Collector(PROP, "route-grid")
+    n = 0
+    for case in route_cases():
+        body(col, case, sub_check="route")
+        n += 1
+    col.extra["route_grid_cases"] = n
+    return col
+
+
 def shard_reuse(part: int = 0, n_parts: int = 1, shard: str = ""):
     env.import_leaspy()
     col = Collector(PROP, f"reuse-{part}/{n_parts}")
@@ -1270,6 +1390,7 @@ def shards(tier: str, seed: int):
                                                n_examples=(n_p if algos != ("scipy_minimize",) else max(5, n_p // 2)), tier=tier, shard=k)))
     for k in range(1 if q else 8):
         specs.append((MOD, "shard_simulate", dict(seed=seed, n_examples=10 if q else 30, tier=tier, shard=k)))
+    specs.append((MOD, "shard_route", dict()))
     for part in range(2):
         specs.append((MOD, "shard_reuse", dict(part=part, n_parts=2)))
     specs.append((MOD, "shard_invalid", dict(part=0, n_parts=1)))
@@ -1284,7 +1405,7 @@ def replay(sub_check: str, inp):
     env.enter_scratch()
     col = Collector(PROP, "replay")
     case = {k: v for k, v in inp.items() if k != "why"}
-    if sub_check in ("fit", "perso", "simulate", "grid", "reuse"):
+    if sub_check in ("fit", "perso", "simulate", "grid", "reuse", "route"):
         body(col, case, sub_check=sub_check)
     elif sub_check in ("invalid", "grid-invalid"):
         if "variants" in case:
